@@ -148,9 +148,12 @@ impl<A: Codec> ToOwned for SeqSlice<A> {
     type Owned = Seq<A>;
 
     fn to_owned(&self) -> Self::Owned {
+        let mut bv: crate::Bv = self.bs.into();
+        // the copy keeps the slice's bit offset; start the owned data at bit 0
+        bv.force_align();
         Seq {
             _p: PhantomData,
-            bv: self.bs.into(),
+            bv,
         }
     }
 }
@@ -172,6 +175,7 @@ impl<A: Codec> BitAnd for &SeqSlice<A> {
 
     fn bitand(self, rhs: Self) -> Self::Output {
         let mut bv = self.bs.to_bitvec();
+        bv.force_align();
         bv &= &rhs.bs;
         Seq::<A> {
             bv,
@@ -185,6 +189,7 @@ impl<A: Codec> BitOr for &SeqSlice<A> {
 
     fn bitor(self, rhs: Self) -> Self::Output {
         let mut bv = self.bs.to_bitvec();
+        bv.force_align();
         bv |= &rhs.bs;
 
         Seq::<A> {
